@@ -1,8 +1,22 @@
 """Sidecar contract objects (the specification language is Python expression text)."""
 
 
+class View:
+    """One aspect of a function's contract, verified on its own: a self-contained inductive set of loop
+    invariants (plus invariants proved by OTHER views that are only assumed here) and the postconditions that
+    follow from them.  At call sites the union of all views' postconditions is used."""
+
+    def __init__(self, name, loops=None, ensures=(), at_calls=None, only_loops=False):
+        self.name = name
+        self.only_loops = only_loops     # safety / call-site preconditions are checked by another (final) view
+        self.loops = dict(loops or {})
+        self.ensures = list(ensures)
+        self.at_calls = dict(at_calls or {})
+
+
 class Loop:
-    def __init__(self, inv=(), modifies=None, decreases=None, unroll=False):
+    def __init__(self, inv=(), modifies=None, decreases=None, unroll=False, assume_only=()):
+        self.assume_only = list(assume_only)   # invariants established by another view (assumed, not re-proved)
         self.inv = list(inv)
         self.modifies = modifies      # None -> function-level modifies
         self.decreases = decreases
@@ -13,7 +27,7 @@ class Contract:
     def __init__(self, module, qualname, props, params=None, returns=None, requires=(), ensures=(),
                  raises=None, raises_exact=(), modifies=(), loops=None, ensures_raise=None,
                  trusted=False, note='', ghost=None, verify=True, inline_callees=(), canary=True,
-                 result_alias=None, pure=False, decreases=None, lemmas=(), ghost_out=None):
+                 result_alias=None, pure=False, decreases=None, lemmas=(), ghost_out=None, at_calls=None, ghost_defs=(), views=(), merge='all'):
         self.module = module
         self.qualname = qualname
         self.props = [props] if isinstance(props, str) else list(props)
@@ -36,11 +50,23 @@ class Contract:
         self.pure = pure
         self.decreases = decreases
         self.lemmas = list(lemmas)
+        self.views = list(views)
+        self.merge = merge                        # path merging: 'all' | 'outside-loops' | 'none'
+        self.ghost_defs = list(ghost_defs)        # definitions of ghost functions, assumed at entry (conservative)
+        self.at_calls = dict(at_calls or {})      # callee name -> [spec text] asserted in the caller's state at each call
         self.ghost_out = dict(ghost_out or {})   # function locals visible to ensures (existential at call sites)
 
     @property
     def key(self):
         return (self.module, self.qualname)
+
+    def all_ensures(self):
+        out = list(self.ensures)
+        for v in self.views:
+            for e in v.ensures:
+                if e not in out:
+                    out.append(e)
+        return out
 
     def __repr__(self):
         return '<Contract %s:%s>' % (self.module, self.qualname)
@@ -68,6 +94,7 @@ class Registry:
         self.stubs = {}
         self.axioms = []         # callables ctx -> [z3 Bool]
         self.replays = {}        # obligation-id prefix -> callable(model_info) -> dict
+        self.ghost_objects = {}  # name -> class name
         self.generators = {}     # contract key -> callable(gen) -> kwargs (concrete inputs)
         self.abstract = set()    # classes never instantiated directly (checked by a static scan)
 
